@@ -3,11 +3,20 @@
     No proofs here.
 
     Times are Unix seconds; the code keeps them in [uint32], so every
-    addition is taken modulo 2^32 ([u32]).  Tokens are abstract identifiers
-    ([N]): the code uses 16 random bytes, as a lower-case hex string in
-    memory and as raw bytes on disk; the harness numbers the tokens it sees.
+    addition is taken modulo 2^32 ([u32]).
+
+    Keys.  A token is 16 random bytes ([newSessionToken]).  The bucket is keyed
+    by the raw bytes; the map in memory is keyed by a STRING: the lower-case
+    hex spelling [hex.EncodeToString] at creation and at reload, and whatever
+    string the cookie carries at lookup and removal ([a.sessions[sess]],
+    [delete(a.sessions, sess)]).  The paths to the bucket decode the cookie
+    string with [key, _ := hex.DecodeString(sess)], which accepts upper- and
+    lower-case digits and, the error being dropped, yields the bytes decoded
+    before the first bad pair.  Both maps are modelled with the keys the code
+    uses: [ss_mem] by spelling, [ss_disk] by raw bytes.
+
     bbolt operations are assumed to succeed (a failed write is only logged by
-    the code). *)
+    the code; Put refuses an empty key, which a 16-byte token never is). *)
 From AGH Require Import Base.Run.
 From stdpp Require Import gmap.
 Local Open Scope N_scope.
@@ -15,58 +24,105 @@ Local Open Scope N_scope.
 Definition u32 (n : N) : N := n mod 4294967296.
 Definition day : N := 86400.
 
+(** * Hex *)
+
+(** [hex.EncodeToString]: two lower-case digits per byte. *)
+Definition hex_digit (n : N) : N := if n <? 10 then 48 + n else 87 + n.
+
+Fixpoint hex_encode (k : bytes) : bytes :=
+  match k with
+  | [] => []
+  | b :: k' => hex_digit (b / 16) :: hex_digit (b mod 16) :: hex_encode k'
+  end.
+
+(** [fromHexChar]. *)
+Definition hex_val (c : N) : option N :=
+  if (48 <=? c) && (c <=? 57) then Some (c - 48)
+  else if (97 <=? c) && (c <=? 102) then Some (c - 87)
+  else if (65 <=? c) && (c <=? 70) then Some (c - 55)
+  else None.
+
+(** [key, _ := hex.DecodeString(s)]: the bytes decoded before the first
+    character that is not a hex digit; a trailing odd character is dropped. *)
+Fixpoint hex_decode_prefix (s : bytes) : bytes :=
+  match s with
+  | a :: b :: s' =>
+      match hex_val a, hex_val b with
+      | Some x, Some y => (16 * x + y) :: hex_decode_prefix s'
+      | _, _ => []
+      end
+  | _ => []
+  end.
+
+(** * The table *)
+
 Record sess := { s_user : bytes; s_expire : N }.
 
-Record sstate := { ss_mem : gmap N sess; ss_disk : gmap N sess }.
+Record sstate := {
+  ss_mem : gmap bytes sess;       (* Auth.sessions: cookie spelling -> session *)
+  ss_disk : gmap bytes sess;      (* bucket "sessions-2": raw token -> session *)
+}.
 
 Definition s_init : sstate := {| ss_mem := ∅; ss_disk := ∅ |}.
 
 Inductive cs_result := CSOK | CSNotFound | CSExpired.
 
-(** [newCookie] after a successful password check: [addSession] with
-    [expire = uint32(now) + sessionTTL]. *)
-Definition new_session (ttl now tok : N) (user : bytes) (st : sstate) : sstate :=
+(** [newCookie] after a successful password check: [addSession(raw, s)] with
+    [expire = uint32(now) + sessionTTL]; the cookie value is
+    [hex_encode raw]. *)
+Definition new_session (ttl now : N) (raw : bytes) (user : bytes) (st : sstate) : sstate :=
   let s := {| s_user := user; s_expire := u32 (u32 now + ttl) |} in
-  {| ss_mem := <[tok := s]> (ss_mem st); ss_disk := <[tok := s]> (ss_disk st) |}.
+  {| ss_mem := <[hex_encode raw := s]> (ss_mem st); ss_disk := <[raw := s]> (ss_disk st) |}.
 
-(** [checkSession]. *)
-Definition check_session (ttl now tok : N) (st : sstate) : sstate * cs_result :=
+(** [checkSession(sp)], [sp] the cookie value as sent. *)
+Definition check_session (ttl now : N) (sp : bytes) (st : sstate) : sstate * cs_result :=
   let now := u32 now in
-  match ss_mem st !! tok with
+  match ss_mem st !! sp with
   | None => (st, CSNotFound)
   | Some s =>
       if s_expire s <=? now then
-        ({| ss_mem := delete tok (ss_mem st); ss_disk := delete tok (ss_disk st) |}, CSExpired)
+        ({| ss_mem := delete sp (ss_mem st); ss_disk := delete (hex_decode_prefix sp) (ss_disk st) |}, CSExpired)
       else
         let ne := u32 (now + ttl) in
         if s_expire s / day =? ne / day then (st, CSOK)
         else
           (* once a day: move the expiry, store the record *)
           let s' := {| s_user := s_user s; s_expire := ne |} in
-          ({| ss_mem := <[tok := s']> (ss_mem st); ss_disk := <[tok := s']> (ss_disk st) |}, CSOK)
+          ({| ss_mem := <[sp := s']> (ss_mem st); ss_disk := <[hex_decode_prefix sp := s']> (ss_disk st) |}, CSOK)
   end.
 
-(** [removeSession] (handleLogout). *)
-Definition logout (tok : N) (st : sstate) : sstate :=
-  {| ss_mem := delete tok (ss_mem st); ss_disk := delete tok (ss_disk st) |}.
+(** [removeSession(sp)]. *)
+Definition logout (sp : bytes) (st : sstate) : sstate :=
+  {| ss_mem := delete sp (ss_mem st); ss_disk := delete (hex_decode_prefix sp) (ss_disk st) |}.
+
+(** GET /control/logout with cookie [sp]: the route is registered through
+    httpRegister, so the request first passes optionalAuth, which (users being
+    configured) runs [checkSession(sp)] and lets [handleLogout] run only on
+    [checkSessionOK]; [handleLogout] then calls [removeSession(sp)]. *)
+Definition logout_request (ttl now : N) (sp : bytes) (st : sstate) : sstate * cs_result :=
+  let '(st', r) := check_session ttl now sp st in
+  match r with CSOK => (logout sp st', r) | _ => (st', r) end.
 
 (** Process restart: [Close], then [InitAuth] -> [loadSessions]: records with
-    [expire <= now] are deleted from the file, the rest becomes the map. *)
+    [expire <= now] are deleted from the file, the rest goes into the map
+    under [hex.EncodeToString(k)]. *)
 Definition restart (now : N) (st : sstate) : sstate :=
   let d := filter (fun kv => u32 now < s_expire (snd kv)) (ss_disk st) in
-  {| ss_mem := d; ss_disk := d |}.
+  {| ss_mem := kmap hex_encode d; ss_disk := d |}.
 
 Inductive sop :=
-  | SNew (now tok : N) (user : bytes)
-  | SCheck (now tok : N)
-  | SLogout (tok : N)
+  | SNew (now : N) (raw : bytes) (user : bytes)   (* a successful login issuing token [raw] *)
+  | SCheck (now : N) (sp : bytes)                 (* a request carrying cookie [sp] *)
+  | SLogout (now : N) (sp : bytes)                (* GET /control/logout carrying cookie [sp] *)
+  | SRemove (sp : bytes)                          (* removeSession(sp) called directly (not reachable over HTTP) *)
   | SRestart (now : N).
 
 Definition sstep (ttl : N) (o : sop) (st : sstate) : sstate * option cs_result :=
   match o with
-  | SNew now tok u => (new_session ttl now tok u st, None)
-  | SCheck now tok => let '(st', r) := check_session ttl now tok st in (st', Some r)
-  | SLogout tok => (logout tok st, None)
+  | SNew now raw u => (new_session ttl now raw u st, None)
+  | SCheck now sp => let '(st', r) := check_session ttl now sp st in (st', Some r)
+  | SLogout now sp => let '(st', r) := logout_request ttl now sp st in (st', Some r)
+  | SRemove sp => (logout sp st, None)
   | SRestart now => (restart now st, None)
   end.
 
@@ -76,6 +132,6 @@ Fixpoint srun (ttl : N) (st : sstate) (h : list sop) : sstate :=
   | o :: h' => srun ttl (fst (sstep ttl o st)) h'
   end.
 
-(** Does a request carrying [tok] authenticate at [now]? *)
-Definition authenticates (ttl now tok : N) (st : sstate) : bool :=
-  match snd (check_session ttl now tok st) with CSOK => true | _ => false end.
+(** Does a request carrying the cookie value [sp] authenticate at [now]? *)
+Definition authenticates (ttl now : N) (sp : bytes) (st : sstate) : bool :=
+  match snd (check_session ttl now sp st) with CSOK => true | _ => false end.
